@@ -281,9 +281,11 @@ def carry_steps(rep, rule="B8"):
                     bad = True
                 pending, word = terms, lhs["n"]
                 continue
-            cmp_ = rhs if rhs is not None and rhs["k"] == "BinaryOperator" and rhs["op"] == "<" else None
+            cmp_ = rhs if rhs is not None and rhs["k"] == "BinaryOperator" and rhs["op"] in ("<", ">") else None
             if cmp_ is not None:
                 a, b = common.render(common.strip(cmp_["c"][0])), common.render(common.strip(cmp_["c"][1]))
+                if cmp_["op"] == ">":
+                    a, b = b, a                       # `x > r` is `r < x`
                 key = "carry:%s:test@%d" % (name, st["l"])
                 if pending is None or a != word or b not in pending or b == word and pending.count(word) < 1:
                     rep.violation(rule, "carry:%s:test" % name, where(st), "the carry test `%s` does not compare the sum with one of the "
